@@ -602,7 +602,7 @@ type pc =
 | PCleanup of shape * key
 | PCancel of key
 | PDrops of gid list * after
-| PScan of z option
+| PScan of z
 | PStreamEnter
 | PStream of (key * sub0) list
 | PStreamDrop of (key * sub0) list
@@ -803,8 +803,8 @@ let do_lookup c s a sh k =
   | None ->
     let (s1, g) = new_guard s k in
     let ents =
-      app s1.s_ents ((k, { e_val = None; e_owner = (Some (OwnG g)); e_queue =
-        []; e_repl = (S O) }) :: [])
+      aset k { e_val = None; e_owner = (Some (OwnG g)); e_queue = [];
+        e_repl = (S O) } s1.s_ents
     in
     ROk ((fin (with_ents s1 ents) a), (OGuard (g, k, None)))
 
@@ -960,11 +960,11 @@ let do_cleanup _ s a k =
     cfg -> (key * entry) list -> aid -> key -> ((key * entry) list option,
     nat) sum **)
 
-let cancel_ents c ents a k =
+let cancel_ents _ ents a k =
   match aget k ents with
   | Some e ->
     let e1 = set_repl (mx_cancel e a) (sub e.e_repl (S O)) in
-    let ents1 = promote_if_lru c k (aset k e1 ents) in
+    let ents1 = aset k e1 ents in
     if Nat.eqb e1.e_repl O
     then (match e1.e_owner with
           | Some _ -> Inr site_cleanup_locked
@@ -1076,16 +1076,13 @@ let expired_keys ents order cutoff =
           | None -> false))
     | None -> false) order
 
-(** val do_scan : cfg -> state -> aid -> z option -> key list -> result **)
+(** val do_scan : cfg -> state -> aid -> z -> key list -> result **)
 
 let do_scan c s a cutoff o =
   match iter_order c s o with
   | Some order ->
-    (match cutoff with
-     | Some ct ->
-       let (s1, l) = lock_keys s (expired_keys s.s_ents order ct) in
-       ROk ((fin s1 a), (OExpired l))
-     | None -> ROk ((fin s a), (OExpired [])))
+    let (s1, l) = lock_keys s (expired_keys s.s_ents order cutoff) in
+    ROk ((fin s1 a), (OExpired l))
   | None -> RInvalid
 
 (** val instant_floor : z **)
@@ -1173,19 +1170,13 @@ let do_sub_drop c s a subs k =
        | _ :: _ -> ROk ((set_pc s1 a (PStreamDrop subs')), ONothing))
     in
     (match st with
-     | SInit ->
-       (match cleanup_ents s.s_ents k with
-        | Inl o -> (match o with
-                    | Some ents -> finish ents
-                    | None -> RInvalid)
-        | Inr site -> RPanic site)
-     | SQueued ->
+     | SUnlocking _ -> RInvalid
+     | _ ->
        (match cancel_ents c s.s_ents a k with
         | Inl o -> (match o with
                     | Some ents -> finish ents
                     | None -> RInvalid)
-        | Inr site -> RPanic site)
-     | SUnlocking _ -> RInvalid)
+        | Inr site -> RPanic site))
   | None -> RInvalid
 
 (** val do_guard_op : cfg -> state -> gid -> gop -> result **)
@@ -1327,7 +1318,9 @@ let do_start c s a cl =
           else RInvalid
         | CExpire d ->
           if (&&) (c_lru c) (Z.leb Z0 d)
-          then ROk ((set_pc s a (PScan (cutoff_of s.s_clock d))), ONothing)
+          then (match cutoff_of s.s_clock d with
+                | Some ct -> ROk ((set_pc s a (PScan ct)), ONothing)
+                | None -> ROk (s, (OExpired [])))
           else RInvalid
         | CStream -> ROk ((set_pc s a PStreamEnter), ONothing)
         | CCount -> ROk ((set_pc s a PCount), ONothing)
